@@ -32,6 +32,7 @@ pub const CONN_KINDS: &[&str] = &[
     "stopped",
     "received_reset",
     "recv_datagram",
+    "recv_datagram_b",
     "send_datagram",
     "closed",
     "closed_b",
@@ -257,7 +258,7 @@ fn build(l: &Connection, kinds: &[String]) -> Result<(Vec<(String, P)>, Vec<Box<
                     }
                 })
             }
-            "recv_datagram" => {
+            "recv_datagram" | "recv_datagram_b" => {
                 let c = l.clone();
                 Probe::new(async move {
                     match c.recv_datagram().await {
